@@ -31,8 +31,8 @@ import os
 import re
 import shutil
 
-D_INV = "ReachOK SccOK BfsOK BfsLayersPartition SortOK TopoAcyclic CyclesOK CycleSearchOK CyclesInScc DomOK"
-U_INV = "ReachOK SccOK BfsOK BfsLayersPartition CcOK CliqueOK CliqueSearchOK CoreOK ChiOK SearchOK BasisOK MsfOK KccOK"
+D_INV = "ReachOK SccOK BfsOK BfsLayersPartition SortOK TopoAcyclic CyclesOK CycleSearchOK CyclesInScc DomOK IntervalOK WalkOK"
+U_INV = "ReachOK SccOK BfsOK BfsLayersPartition CcOK CliqueOK CliqueSearchOK CoreOK ChiOK SearchOK BasisOK MsfOK KccOK WalkOK"
 
 
 ABOVE_CHI = "structural:DsaturExact:above-chromatic-number"
@@ -141,7 +141,9 @@ def chromatic(ctx, b, tag="chromatic", sizes=None):
             keep = os.path.join(os.path.dirname(__file__), "..", "..", "replays", "C14")
             os.makedirs(keep, exist_ok=True)
             dst = os.path.abspath(os.path.join(keep, "trace-chromatic-witness-g%d-seed%d.ndjson" % (ev["gid"], ctx.seed)))
-            ev2 = dict(ev, calls=ev["calls"] + [{"alg": "ChromaticSearch-witness", "k": kw, "col": pairs, "err": "", "exact": False}])
+            classes = sorted(set(c for _, c in pairs))
+            ev2 = dict(ev, calls=ev["calls"] + [{"alg": "ChromaticSearch-witness", "k": kw, "col": pairs, "err": "", "exact": False,
+                                                 "sets": [[c] + [v for v, cv in pairs if cv == c] for c in classes], "setsbyid": True}])
             with open(dst, "w") as fh:
                 fh.write(json.dumps(ev2) + "\n")
             ctx.violation(ABOVE_CHI, "graph %d (%s): every recorded DsaturExact call returned k >= %d, TLC found a proper "
@@ -224,6 +226,56 @@ def family_search(ctx, b, tr, events, which, sfx=""):
             return
 
 
+def rgen_cases(ctx):
+    return ctx.gen("structural/RandGen.tla", "structural/RandGen.cfg", subst=dict(PART="all", SALT=ctx.seed % 1000),
+                   name="R1+R2 gen random generators: grid of calls (GilbertOK, VariateOK)")
+
+
+def rgen(ctx, b, cases):
+    """Random generators (Gnp, Gnm, SmallWorldsBB, PowerLaw, BipartitePowerLaw, Duplication, TunableClusteringScaleFree,
+    PreferentialAttachment, NavigableSmallWorld): RandGen.tla prints the bounded grid of calls (with the R1 invariants
+    GilbertOK / VariateOK on the scripted Gnp cases), the harness makes every call on real containers behind recording
+    wrappers, RandGenTrace.tla judges every outcome with the clauses of RandGenDefs.tla.  Every event is judged; each
+    rejected event is a violation of its own (signature structural:gen.<generator>:<clause>[:<class>]), the one-event
+    trace is the replay artefact."""
+    files = [cases]
+    tr = os.path.join(ctx.work, "trace-rgen.ndjson")
+    summ = ctx.record(b, "structural", tr, ["mode=rgen", "cases=" + ",".join(files)], name="R3 record random generator calls")
+    ok, st = ctx.validate("structural/RandGenTrace.tla", "structural/RandGenTrace.cfg", tr, timeout=1200,
+                          name="R3 validate random generator outcomes (every event judged)")
+    events = summ.get("traces", 0)
+    if ok:
+        ctx.traces += events
+        return
+    detail = st.get("detail", "").replace('\\"', '"')
+    rej = re.findall(r"<<(\d+), \{([^}]*)\}>>", detail.split(" | ")[0])
+    if not rej:
+        raise_undecided("random generator trace rejected without a readable list of events:\n" + detail[-1500:])
+    st["events_rejected"] = len(rej)
+    ctx.traces += events - len(rej)
+    lines = open(tr).read().split("\n")
+    keep = os.path.join(os.path.dirname(__file__), "..", "..", "replays", "C14")
+    os.makedirs(keep, exist_ok=True)
+    seen = {}
+    for idx, names in rej:
+        for clause in re.findall(r'"([^"]+)"', names):
+            seen[clause] = seen.get(clause, 0) + 1
+            if seen[clause] > 2:
+                continue
+            ev = json.loads(lines[int(idx) - 1])
+            dst = os.path.abspath(os.path.join(keep, "trace-rgen-%s-ev%s-seed%d.ndjson" % (re.sub(r"[^A-Za-z0-9]+", "-", clause), idx, ctx.seed)))
+            with open(dst, "w") as fh:
+                fh.write(lines[int(idx) - 1] + "\n")
+            par = {k: ev[k] for k in ("gen", "dst", "n", "m", "d", "q", "r", "dims", "pn", "pd", "dn", "dd", "an", "ad", "sn", "sd", "src", "pre")
+                   if ev.get(k) not in (0, [], "")}
+            ctx.violation("structural:gen." + clause,
+                          "clause %s rejected by RandGenTrace for the call %s: created nodes %s, SetEdge/SetLine calls %s, err=%s %s panic=%r (%d events of this run fail the clause)"
+                          % (clause, par, ev["new"], ev["calls"], ev["err"], ev.get("errtext", ""), ev["panic"],
+                             sum(1 for _, nn in rej if '"%s"' % clause in nn)),
+                          {"trace": dst, "spec": "structural/RandGenTrace.tla"})
+    st["clauses_rejected"] = seen
+
+
 def dcycles(ctx, b):
     """Elementary cycles beyond enumeration: seeded random digraphs of 10..20 nodes, DirectedCyclesIn on rebuilt
     containers; StructuralTrace ("dcyc" clauses) accepts only elementary cycles, none twice; CycleSearch.tla
@@ -296,6 +348,31 @@ def run(ctx):
         if thorough:     # the tomita pivot rule changes BronKerbosch (and through the clique bound, DsaturExact's start)
             chromatic(ctx, dict(bins)["tomita"], tag="chromatic-tomita",
                       sizes=["graphs=100", "calls=8", "heur=1", "nmin=20", "nmax=34", "cliq=1"])
+
+    # ---- added with the coverage-driven extension, independent of everything above and of each other, run side by side:
+    #      control flow intervals (flow.Intervals): every digraph <= 4 nodes from every entry node, and one seed-chosen
+    #      shard (1/64; thorough: 4 shards) of the digraphs on 5 nodes from entry node 1; topo.IsPathIn on every node
+    #      sequence (length <= 4, 3 on 4 nodes) over every graph <= 4 nodes of either kind; topo.Equal on every ordered
+    #      pair of stored graphs on node subsets of 1..3; the random generators of graph/graphs/gen (grid of calls printed
+    #      by RandGen.tla, outcomes judged by RandGenTrace.tla)
+    def sgen(mode, lo, hi, salt, name):
+        return ctx.gen("structural/StructuralGen.tla", "structural/StructuralGen.cfg",
+                       subst=dict(MODE=mode, NMIN=lo, NMAX=hi, SALT=salt % 1000, PALETTE="{0,2}"), name=name)
+    shards = [ctx.seed + 271 * i for i in range(4 if thorough else 1)]
+    plan = [("flow", 3, lambda: sgen("flow", 0, 4, ctx.seed, "R2 gen control flow intervals, all digraphs <= 4 nodes x entry nodes"))]
+    for sd in shards:
+        plan.append(("flow5", 1, lambda sd=sd: sgen("flow5", 5, 5, sd, "R2 gen control flow intervals, digraphs on 5 nodes, entry node 1: shard %d of 64"
+                                                    % ((sd % 1000 * 37 + 11) % 64))))
+    plan += [("walk", 3, lambda: sgen("walk", 0, 4, ctx.seed, "R2 gen IsPathIn, all graphs <= 4 nodes x node sequences")),
+             ("equal", 3, lambda: sgen("equal", 0, 3, ctx.seed, "R1+R2 gen topo.Equal, all pairs of stored graphs on subsets of 1..3 (EqualOK)")),
+             ("rgen", 0, lambda: rgen_cases(ctx))]
+    made = ctx.parallel([p[2] for p in plan], width=4)
+
+    def stage(tag, maps, f):
+        if tag == "rgen":
+            return lambda: rgen(ctx, b, f)
+        return lambda: ctx.replay(b, "structural", f, ["maps=%d" % maps], name="R2 replay %s [default]" % tag)
+    ctx.parallel([stage(p[0], p[1], f) for p, f in zip(plan, made)], width=4)
 
     # ---- traversals as state machines (the walker modules of the extra check X02, run here because the
     #      traversal clause belongs to this property): Traverse.tla / TraverseImpl.tla / TraverseTrace.tla
